@@ -14,7 +14,7 @@
         Sub  SubsetFederatedData     id set (translated slice filter), validation, delegation
    3. the correspondence predicate C08_agree evaluated by the check. *)
 From Coq Require Import ZArith NArith List Bool.
-From FV Require Import Common.ListX Common.Bytes.
+From FV Require Import Common.ListX Common.Bytes Common.PyIter.
 From FV Require Import gen.Gen_client_datasets_pre gen.Gen_federated_data gen.Gen_in_memory_federated_data gen.Gen_sqlite_federated_data.
 From FV Require Model.C15_Model.   (* buffered_shuffle: the mirrored client_datasets.buffered_shuffle of C15 *)
 Import ListNotations.
@@ -34,11 +34,13 @@ Inductive cfn :=                 (* fn(client_id, examples) *)
 | CAddId                         (* x + sum of the bytes of client_id *)
 | CDup                           (* every feature concatenated with itself: 2n rows *)
 | CTail                          (* every feature without its first row *)
-| CMark.                         (* adds a constant feature z: the column x is unchanged *)
+| CMark                          (* adds a constant feature z: the column x is unchanged *)
+| CYz.                           (* adds z to the column y when z exists: the column x is unchanged *)
 
 Inductive bfn :=                 (* fn(examples), row-wise *)
 | BAdd (k : Z)
-| BMul (k : Z).
+| BMul (k : Z)
+| BYmul (k : Z).                 (* multiplies the column y: the column x is unchanged *)
 
 Definition idsum (i : id) : Z := fold_right (fun b a => Z.of_N b + a) 0 i.
 
@@ -50,12 +52,14 @@ Definition app_c (i : id) (f : cfn) (r : raw) : raw :=
   | CDup => r ++ r
   | CTail => tl r
   | CMark => r
+  | CYz => r
   end.
 
 Definition app_b (g : bfn) (r : raw) : raw :=
   match g with
   | BAdd k => map (fun x => x + k) r
   | BMul k => map (fun x => x * k) r
+  | BYmul _ => r
   end.
 
 (* how a registered function is called: f(client_id, examples) / g(examples) *)
@@ -84,19 +88,10 @@ Inductive op :=
 | OPreClient (f : cfn)
 | OPreBatch (g : bfn).
 
-Inductive res (A : Type) :=
-| Val (a : A)
-| KeyErr        (* KeyError *)
-| Crash.        (* any other exception; no model produces it on well-formed input *)
-Arguments Val {A}.
-Arguments KeyErr {A}.
-Arguments Crash {A}.
+(* res / ending / stream and the generator combinators are in Common/PyIter.v *)
+Notation cstream := (stream (bytes * dataset)) (only parsing).   (* what get_clients / clients yield *)
 
-(* get_clients is a generator: the pairs yielded, then how it ended *)
-Inductive ending := Done | EKey | ECrash.
-Definition stream := (list (id * dataset) * ending)%type.
-
-Fixpoint gets (get : id -> res dataset) (req : list id) : stream :=
+Fixpoint gets (get : id -> res dataset) (req : list id) : cstream :=
   match req with
   | [] => ([], Done)
   | i :: req' =>
@@ -104,18 +99,6 @@ Fixpoint gets (get : id -> res dataset) (req : list id) : stream :=
       | Val d => let (l, e) := gets get req' in ((i, d) :: l, e)
       | KeyErr => ([], EKey)
       | Crash => ([], ECrash)
-      end
-  end.
-
-(* per-item form of a get_clients loop: `yield <item>` where the item's dataset may raise *)
-Fixpoint gets_items (item : id -> id * res dataset) (req : list id) : stream :=
-  match req with
-  | [] => ([], Done)
-  | i :: req' =>
-      match item i with
-      | (j, Val d) => let (l, e) := gets_items item req' in ((j, d) :: l, e)
-      | (_, KeyErr) => ([], EKey)
-      | (_, Crash) => ([], ECrash)
       end
   end.
 
@@ -169,7 +152,7 @@ Definition spec_size (ds : table) (v : view) (i : id) : res Z :=
 Definition spec_get (ds : table) (v : view) (i : id) : res dataset :=
   if visible v i then match bassoc i ds with Some r => Val (client_dataset i (v_c v) (v_b v) r) | None => KeyErr end
   else KeyErr.
-Definition spec_gets (ds : table) (v : view) (req : list id) : stream := gets (spec_get ds v) req.
+Definition spec_gets (ds : table) (v : view) (req : list id) : cstream := gets (spec_get ds v) req.
 (* the per-id content used to state sizes / clients for any enumeration order of the view *)
 Definition spec_size_of (ds : table) (i : id) : Z :=
   match bassoc i ds with Some r => stored_len r | None => 0 end.
@@ -198,16 +181,27 @@ Definition mem_ids (tbl : table) : list id := in_memory_init_client_ids tbl.
 (* {client_id: mapping[client_id] for client_id in client_ids} *)
 Notation restrict := brestrict (only parsing).
 
-(* SELECT ... FROM federated_data WHERE <_range_where()> ORDER BY rowid *)
-Fixpoint sql_select (start stop : option id) (tbl : table) : option table :=
-  match tbl with
-  | [] => Some []
-  | (i, r) :: t =>
-      match sqlite_range_where start stop i, sql_select start stop t with
-      | Some b, Some l => Some (if b then (i, r) :: l else l)
-      | _, _ => None
-      end
+(* SELECT ... FROM federated_data WHERE <_range_where()> ORDER BY rowid (Common/PyIter.sql_where over the
+   TRANSLATED predicate) *)
+Notation sql_select st sp tbl := (sql_where (sqlite_range_where st sp) tbl) (only parsing).
+
+(* the columns of a stored row: the model keeps the parsed example table; num_examples is its length
+   (SQLiteFederatedDataBuilder writes it so) *)
+Definition col_data (r : raw) : raw := r.
+Definition col_num_examples (r : raw) : Z := stored_len r.
+
+(* self._client_dataset(client_id) of the in-memory dataset: the mapping lookup may raise KeyError *)
+Definition mem_dataset_of (tbl : table) (cs : list cfn) (bs : list bfn) (i : id) : res dataset :=
+  match bassoc i tbl with
+  | Some r => match in_memory_client_dataset applyc cs bs i r with Some dd => Val dd | None => Crash end
+  | None => KeyErr
   end.
+(* client_datasets.num_examples(self._client_to_data_mapping[client_id], validate=False) *)
+Definition mem_num_examples_of (tbl : table) (i : id) : res Z :=
+  match bassoc i tbl with Some r => Val (stored_len r) | None => KeyErr end.
+(* self._client_dataset(client_id, data) of the SQLite dataset (data already parsed) *)
+Definition sql_dataset_of (cs : list cfn) (bs : list bfn) (i : id) (r : raw) : res dataset :=
+  match sqlite_client_dataset applyc cs bs i r with Some dd => Val dd | None => Crash end.
 
 (* every constructor call below is the TRANSLATED return statement of the method *)
 Fixpoint fd_slice (d : fd) (s e : option id) : option fd :=
@@ -249,11 +243,13 @@ Fixpoint fd_pre_batch (d : fd) (g : bfn) : fd :=
   | Sub b ids => let '(b', ids') := subset_preprocess_batch (fd_pre_batch b g) ids in Sub b' ids'
   end.
 
+(* every method below is the TRANSLATED method body (gen/), instantiated with the model's table *)
+
 (* num_clients() *)
 Definition fd_num (d : fd) : res Z :=
   match d with
   | Mem tbl _ _ => Val (in_memory_num_clients (mem_ids tbl))
-  | Sql tbl st sp _ _ => match sql_select st sp tbl with Some l => Val (Z.of_nat (length l)) | None => Crash end
+  | Sql tbl st sp _ _ => match sqlite_num_clients st sp tbl with Some n => Val n | None => Crash end
   | Sub _ ids => Val (subset_num_clients ids)
   end.
 
@@ -261,26 +257,22 @@ Definition fd_num (d : fd) : res Z :=
 Definition fd_ids (d : fd) : res (list id) :=
   match d with
   | Mem tbl _ _ => Val (in_memory_client_ids (mem_ids tbl))
-  | Sql tbl st sp _ _ => match sql_select st sp tbl with Some l => Val (map fst l) | None => Crash end
+  | Sql tbl st sp _ _ => match sqlite_client_ids st sp tbl with Some l => Val l | None => Crash end
   | Sub _ ids => Val (subset_client_ids ids)
   end.
+
+Definition of_stream {A} (s : stream A) : res (list A) :=
+  match s with (l, Done) => Val l | (_, EKey) => KeyErr | (_, ECrash) => Crash end.
 
 (* client_sizes() *)
 Fixpoint fd_sizes (d : fd) : res (list (id * Z)) :=
   match d with
-  | Mem tbl _ _ =>
-      match omap (fun i => match bassoc i tbl with Some r => Some (i, stored_len r) | None => None end) (mem_ids tbl) with
-      | Some l => Val l
-      | None => KeyErr
-      end
+  | Mem tbl _ _ => of_stream (in_memory_client_sizes (mem_num_examples_of tbl) (mem_ids tbl))
   | Sql tbl st sp _ _ =>
-      match sql_select st sp tbl with
-      | Some l => Val (map (fun kv => (fst kv, stored_len (snd kv))) l)
-      | None => Crash
-      end
+      match sqlite_client_sizes col_num_examples st sp tbl with Some l => Val l | None => Crash end
   | Sub b ids =>
       match fd_sizes b with
-      | Val l => Val (filter (fun kv => subset_client_sizes_keeps ids (fst kv)) l)
+      | Val l => Val (subset_client_sizes ids l)
       | KeyErr => KeyErr
       | Crash => Crash
       end
@@ -289,63 +281,34 @@ Fixpoint fd_sizes (d : fd) : res (list (id * Z)) :=
 (* client_size(client_id) *)
 Fixpoint fd_size (d : fd) (i : id) : res Z :=
   match d with
-  | Mem tbl _ _ => match bassoc i tbl with Some r => Val (stored_len r) | None => KeyErr end
-  | Sql tbl st sp _ _ =>
-      if sqlite_client_size_in_range st sp i
-      then match bassoc i tbl with Some r => Val (stored_len r) | None => KeyErr end
-      else KeyErr
+  | Mem tbl _ _ => in_memory_client_size (mem_num_examples_of tbl) i
+  | Sql tbl st sp _ _ => sqlite_client_size col_num_examples st sp tbl i
   | Sub b ids => if subset_client_size_raises ids i then KeyErr else fd_size b i
   end.
 
 (* get_client(client_id) *)
 Fixpoint fd_get (d : fd) (i : id) : res dataset :=
   match d with
-  | Mem tbl cs bs =>
-      match bassoc i tbl with
-      | Some r => match in_memory_client_dataset applyc cs bs i r with Some dd => Val dd | None => Crash end
-      | None => KeyErr
-      end
-  | Sql tbl st sp cs bs =>
-      if sqlite_get_client_in_range st sp i
-      then match bassoc i tbl with
-           | Some r => match sqlite_client_dataset applyc cs bs i r with Some dd => Val dd | None => Crash end
-           | None => KeyErr
-           end
-      else KeyErr
+  | Mem tbl cs bs => in_memory_get_client (mem_dataset_of tbl cs bs) i
+  | Sql tbl st sp cs bs => sqlite_get_client col_data (sql_dataset_of cs bs) st sp tbl i
   | Sub b ids => if subset_get_client_raises ids i then KeyErr else fd_get b i
   end.
 
-(* `for client_id, dataset in self._base.get_clients(...): if client_id not in self._client_ids: raise KeyError` *)
-Fixpoint sub_filter (ids : list id) (l : list (id * dataset)) (e : ending) : stream :=
-  match l with
-  | [] => ([], e)
-  | (i, d) :: l' => if subset_get_clients_raises ids i then ([], EKey)
-                    else let (r, e') := sub_filter ids l' e in (subset_get_clients_item i d :: r, e')
-  end.
-
 (* get_clients(client_ids) *)
-Fixpoint fd_gets (d : fd) (req : list id) : stream :=
+Fixpoint fd_gets (d : fd) (req : list id) : cstream :=
   match d with
-  | Mem _ _ _ => gets_items (in_memory_get_clients_item (fd_get d)) req   (* yield client_id, self._client_dataset(client_id) *)
-  | Sql _ _ _ _ _ => gets_items (sqlite_get_clients_item (fd_get d)) req  (* yield client_id, self.get_client(client_id) *)
-  | Sub b ids => let (l, e) := fd_gets b req in sub_filter ids l e
+  | Mem tbl cs bs => in_memory_get_clients (mem_dataset_of tbl cs bs) req
+  | Sql _ _ _ _ _ => sqlite_get_clients (fd_get d) req
+  | Sub b ids => subset_get_clients ids (fd_gets b req)
   end.
 
 (* clients() *)
-Definition fd_clients (d : fd) : stream :=
+Definition fd_clients (d : fd) : cstream :=
   match d with
   | Mem tbl _ _ => fd_gets d (in_memory_clients_request (mem_ids tbl))
   | Sql tbl st sp cs bs =>
-      match sql_select st sp tbl with
-      | Some l =>
-          (* for k, v in self._read_clients(): yield k, self._client_dataset(k, v) *)
-          match omap (fun kv => match sqlite_clients_item (sqlite_client_dataset applyc cs bs) (fst kv) (snd kv) with
-                                | (k, Some dd) => Some (k, dd)
-                                | (_, None) => None
-                                end) l with
-          | Some out => (out, Done)
-          | None => ([], ECrash)
-          end
+      match sqlite_read_clients col_data st sp tbl with
+      | Some rows => sqlite_clients (sql_dataset_of cs bs) rows
       | None => ([], ECrash)
       end
   | Sub _ ids => fd_gets d (subset_clients_request ids)
@@ -353,30 +316,34 @@ Definition fd_clients (d : fd) : stream :=
 
 (* One pass of shuffled_clients(buffer_size, seed).  The random choices are oracle arguments
    (the Lehmer code of rng.shuffle(buf), the rng.randint(buffer_size) draws), recorded by the
-   harness from the RandomState the implementation creates.
-     in-memory / subset:  buffered_shuffle(self.clients(), buffer_size, rng)
-     SQLite:              for k, v in buffered_shuffle(self._read_clients(), ..): yield k, self._client_dataset(k, v) *)
+   harness from the RandomState the implementation creates.  `shuffle1` is one call of
+   client_datasets.buffered_shuffle (the mirror of C15); which source is shuffled and what is made
+   of the shuffled items is the TRANSLATED method body (a fresh shuffle per pass). *)
+Definition shuffle1 {S} (B : Z) (code : list nat) (draws : list Z) (l : list S) : option (list S) :=
+  match C15_Model.buffered_shuffle B code draws l false with
+  | C15_Model.SOk out => Some out
+  | _ => None
+  end.
+
 Definition fd_shuffled_pass (d : fd) (B : Z) (code : list nat) (draws : list Z) : option (list (id * dataset)) :=
   match d with
+  | Mem _ _ _ =>
+      match fd_clients d with
+      | (l, Done) => in_memory_shuffled_pass (shuffle1 B code draws) l
+      | _ => None
+      end
   | Sql tbl st sp cs bs =>
-      match sql_select st sp tbl with
+      match sqlite_read_clients col_data st sp tbl with
       | Some rows =>
-          match C15_Model.buffered_shuffle B code draws rows false with
-          | C15_Model.SOk out =>
-              omap (fun kv => match sqlite_clients_item (sqlite_client_dataset applyc cs bs) (fst kv) (snd kv) with
-                              | (k, Some dd) => Some (k, dd)
-                              | (_, None) => None
-                              end) out
-          | _ => None
+          match sqlite_shuffled_pass (sql_dataset_of cs bs) (shuffle1 B code draws) rows with
+          | Some out => omap (fun kd => match snd kd with Val dd => Some (fst kd, dd) | _ => None end) out
+          | None => None
           end
       | None => None
       end
-  | _ =>
+  | Sub _ _ =>
       match fd_clients d with
-      | (l, Done) => match C15_Model.buffered_shuffle B code draws l false with
-                     | C15_Model.SOk out => Some out
-                     | _ => None
-                     end
+      | (l, Done) => subset_shuffled_pass (shuffle1 B code draws) l
       | _ => None
       end
   end.
@@ -445,6 +412,10 @@ Definition ops_c (ops : list op) : list cfn :=
 Definition ops_b (ops : list op) : list bfn :=
   flat_map (fun o => match o with OPreBatch g => [g] | _ => [] end) ops.
 
+(* the operations that change which clients are visible *)
+Definition view_ops (ops : list op) : list op :=
+  filter (fun o => match o with OSlice _ _ | OSubset _ => true | _ => false end) ops.
+
 (* ------------------------------------------------------------------ *)
 (* 3. correspondence                                                    *)
 
@@ -467,7 +438,7 @@ Definition to_eres {A B} (f : A -> B) (r : res A) : eres B :=
   match r with Val a => V (f a) | KeyErr => K | Crash => X end.
 
 Definition estream := (list (Z * dobs) * Z)%type.   (* ending: 0 done, 1 KeyError, 2 other *)
-Definition to_estream (u : list id) (s : stream) : estream :=
+Definition to_estream (u : list id) (s : cstream) : estream :=
   (map (fun kd => (idx_of u (fst kd), observe (snd kd))) (fst s),
    match snd s with Done => 0 | EKey => 1 | ECrash => 2 end).
 
